@@ -193,7 +193,15 @@ static void predicates(const Prob& P, const Run& R, int alg, double fret, const 
             if (std::isnan(P.envLo[i]) || std::isnan(xret[i])) worst = worstBase = NAN;
         }
         if (alg == InteriorPoint && !startInside) vh::D("InteriorPoint.infeasibleStart.evalbox.notclaimed");  // IPOPT evaluates the user's start point for its scaling
-        else if (!numdiff) vh::P("evaluations_within_limits", key + ".evalbox", worst, 0.0);
+        else if (!numdiff) {
+            // an overshoot of a few ulps (L-BFGS-B's x + stp*d landing one rounding error beyond an active bound) is still
+            // an evaluation outside the limits, but it is reported under ONE key of its own so that the listed finding
+            // (cap 1e-13) can never stand in for a real excursion, which keeps the per-problem key
+            double bscale = 1; for (int i = 0; i < n; ++i) { if (!std::isinf(P.lo[i])) bscale = std::max(bscale, std::fabs(P.lo[i])); if (!std::isinf(P.hi[i])) bscale = std::max(bscale, std::fabs(P.hi[i])); }
+            if (alg == LBFGSB && worst > 0 && worst <= 8 * 2.220446049250313e-16 * bscale)
+                vh::P("evaluations_within_limits", "LBFGSB.evalbox.roundoff_overshoot", worst, 0.0);
+            else vh::P("evaluations_within_limits", key + ".evalbox", worst, 0.0);
+        }
         else {
             // numerical derivatives: simbody's wrapper hands the Differentiator a base point inside the limits, but the
             // difference stencil x_i +/- h_i is evaluated without regard to the limits
